@@ -85,6 +85,8 @@ EXC_BASES = {
     "InterruptedError": "OSError",
     "BrokenPipeError": "OSError",
     "RuntimeError": "Exception",
+    "Empty": "Exception",   # queue.Empty
+    "Full": "Exception",    # queue.Full
     "NotImplementedError": "RuntimeError",
     "RecursionError": "RuntimeError",
     "StopIteration": "Exception",
